@@ -18,7 +18,7 @@ for pid in ids:
         evidence_file='/verif/evidence/%s.json' % pid,
         replay_cmd_template='cat {path}   # every replay file holds the seed, the op line(s) and the exact ./check command that reproduces it',
         engine=','.join(e['name'] for e in c['engines']) or 'lean-only',
-        level_claimed=dict(category='proof', text=c.get('level_text', ''), design_ref=c.get('design_ref', 'DESIGN.md §5 ' + pid)),
+        level_claimed=dict(category='proof', text=c.get('level_text', P.LEVEL_TEXT.get(pid, '')), design_ref=c.get('design_ref', 'DESIGN.md §5 ' + pid)),
         level_note=c.get('level_note', 'Trusted: Lean kernel + propext/Classical.choice/Quot.sound; factgen; the correspondence harness; SDK/geth internals are modelled, not verified.'),
         technique=c.get('technique', 'Lean 4 theorems over a hand-written executable model + regenerated fact obligations + differential correspondence against the real code'),
     ))
